@@ -863,6 +863,24 @@ func ruleLayerOrder(c *Ctx, dv *dev) {
 			}
 			return out
 		}
+		// a colour looked up by a small accessor (`palette.of(channel)`): what the accessor returns
+		if call, ok := v.(*ssa.Call); ok {
+			if callee := call.Call.StaticCallee(); callee != nil && c.P.OwnedFunc(callee) && len(callee.Blocks) > 0 && callee.Signature.Results().Len() == 1 && callee.Name() != "shiftColor" {
+				var out []string
+				for _, rb := range callee.Blocks {
+					if ret, isRet := rb.Instrs[len(rb.Instrs)-1].(*ssa.Return); isRet && rb != callee.Recover {
+						for _, cl := range classify(callee, ret.Results[0], depth+1) {
+							if cl != "blank" && cl != "other" {
+								out = append(out, cl)
+							}
+						}
+					}
+				}
+				if len(out) > 0 {
+					return out
+				}
+			}
+		}
 		s := NewFnView(c.P, fn).Term(v).String()
 		switch {
 		case strings.Contains(s, ".Colors.Unavailable"):
@@ -1198,7 +1216,7 @@ func ruleNoNarrowTransposition(c *Ctx, dv *dev) {
 					continue // widening or same width
 				}
 				t := vw.Term(cv.X)
-				if !t.LoadsField(dv.fields["octave"]) && !t.LoadsField(dv.fields["semitone"]) {
+				if !t.LoadsField(dv.fields["octave"]) && !t.LoadsField(dv.fields["semitone"]) && !paramCarriesTransposition(pf, dv, fn, cv.X, 0) {
 					continue
 				}
 				ord[shortFn(fn)]++
@@ -1209,6 +1227,45 @@ func ruleNoNarrowTransposition(c *Ctx, dv *dev) {
 			}
 		}
 	}
+}
+
+// paramCarriesTransposition: v is computed from a parameter of a painting helper / closure that its call sites bind to
+// a value computed from octave/semitone (`lightNote(note, offset, colour)`).
+func paramCarriesTransposition(pf *parserFacts, dv *dev, fn *ssa.Function, v ssa.Value, depth int) bool {
+	if depth > 6 || v == nil {
+		return false
+	}
+	switch x := v.(type) {
+	case *ssa.BinOp:
+		return paramCarriesTransposition(pf, dv, fn, x.X, depth+1) || paramCarriesTransposition(pf, dv, fn, x.Y, depth+1)
+	case *ssa.Convert:
+		return paramCarriesTransposition(pf, dv, fn, x.X, depth+1)
+	case *ssa.Phi:
+		for _, e := range x.Edges {
+			if paramCarriesTransposition(pf, dv, fn, e, depth+1) {
+				return true
+			}
+		}
+	case *ssa.Parameter:
+		idx := paramIndex(x)
+		var sites []ssa.CallInstruction
+		if cs, ok := closureCallSites(x.Parent()); ok {
+			sites = cs
+		} else if ss, all := staticCallSites(pf.p, x.Parent()); all {
+			sites = ss
+		}
+		for _, cs := range sites {
+			if idx < 0 || idx >= len(cs.Common().Args) {
+				continue
+			}
+			a := cs.Common().Args[idx]
+			at := pf.view(cs.Parent()).Term(a)
+			if at.LoadsField(dv.fields["octave"]) || at.LoadsField(dv.fields["semitone"]) {
+				return true
+			}
+		}
+	}
+	return false
 }
 
 // ruleConfiguredColourUnmodified: R17.11. A key shows its pitch-class colour: the configured C / black / white value. The
